@@ -167,7 +167,13 @@ def from_model(sort, v, spec=None, name=None):
         build = (spec or {}).get("native_build", {}).get(name)
         if build is None:
             raise ValueError(f"no native_build for object parameter {name}")
-        return build({k: from_model(s, v.get(k)) for k, s in sort.fields.items()})
+        def field(s, x):
+            try:
+                return from_model(s, x)
+            except ValueError:
+                return None  # opaque / stub fields: the object builder supplies the real thing
+
+        return build({k: field(s, v.get(k)) for k, s in sort.fields.items()})
     build = (spec or {}).get("native_build", {}).get(name)
     if build is not None:
         return build(v)  # opaque parameters: the contract module says how a concrete value is made
@@ -175,6 +181,10 @@ def from_model(sort, v, spec=None, name=None):
 
 
 def _fits(s, v):
+    if isinstance(s, Const) and (callable(s.value) or type(s.value).__name__ == "ExternalFn"):
+        return True  # a stubbed method of the symbolic object: the native object has the real one
+    if type(s).__name__ == "Opq":
+        return True  # opaque values are made by the contract module's native_build
     if isinstance(s, Const):
         return s.value == v if s.value is not None else v is None
     if v is None:
@@ -210,6 +220,18 @@ def check(spec, args):
     """Run the real function natively on args (JSON-ish dict) and evaluate the contract.
 
     Returns list of (clause, ok, detail); ok None = input does not satisfy `requires` (not a witness)."""
+    tol = spec.get("native_tol")
+    if not tol:
+        return _check(spec, args)
+    old = (R.REL, R.ABS)
+    R.REL, R.ABS = tol.get("rel", R.REL), tol.get("abs", R.ABS)  # e.g. functions that return float32 arrays
+    try:
+        return _check(spec, args)
+    finally:
+        R.REL, R.ABS = old
+
+
+def _check(spec, args):
     cfg = match_cfg(spec, args)
     if cfg is None:
         return [("requires", None, "arguments fit no configuration of the contract")]
